@@ -16,5 +16,9 @@ for profile in chk.PROFILES:
         r = subprocess.run(["cargo", "build", "--offline", "--profile", profile, "-p", pkg, "--bins"], cwd=ws, env=env)
         if r.returncode != 0:
             sys.exit(r.returncode)
+# warm the Miri build of the C19 miniature (non-fatal: the check itself reports a Miri problem as inconclusive)
+env2 = dict(env, MIRIFLAGS="-Zmiri-many-seeds=0..1")
+subprocess.run(["cargo", "+nightly", "miri", "run", "--offline", "-p", "miri-c19"], cwd=ws, env=env2,
+               stdout=subprocess.DEVNULL, stderr=subprocess.DEVNULL)
 print("setup ok")
 PY
